@@ -25,6 +25,7 @@ def source(case):
   lines = []
   for name, fields in case['types']:
     lines += ['@bitstruct', f'class {name}:'] + [f'  {f}: {spec_src(s)}' for f, s in fields] + ['']
+  lines += list(case.get('prelude', []))
   cname = f'C10S_{case["uid"]}'
   lines += [f'class {cname}( Component ):', '  def construct( s ):']
   for n, d, t in case['ports']:
@@ -191,6 +192,48 @@ def gen_intlut(rng, uid):
   else: stmt = f's.out @= s.a if s.a[0] else {E}'
   if 'lut[ i ]' in E: case['body'] = ['s.out @= 0', f'for i in range( {n} ):', '  ' + stmt]
   else: case['body'] = [stmt]
+  return case
+
+def gen_hetero(rng, uid, which, canonical=False):
+  """known findings N7 / N8: a list of interfaces (N7) / of sub-components whose ports live inside an interface (N8)
+  built from ONE class with different type parameters is typed by its first element; reading a port of a later,
+  differently sized element into a port of element 0's width is accepted"""
+  w0 = 8 if canonical else rng.choice([2, 4, 8])
+  w1 = 16 if canonical else w0 + rng.choice([1, 4, 8])
+  n = 2 if canonical else rng.randint(2, 3)
+  ws = [w0] + [w1 if j == 1 else rng.choice([w0, w1]) for j in range(1, n)]
+  pick = 1 if canonical else rng.choice([j for j in range(n) if ws[j] != w0])
+  I, S = f'Ifc{uid}', f'Sub{uid}'
+  case = {'uid': uid, 'stream': which, 'types': [], 'widths': sorted(set(ws)), 'ports': [['out', 'out', f'Bits{w0}']],
+          'prelude': [f'class {I}( Interface ):', '  def construct( s, T ):',
+                      f'    s.msg = {"InPort" if which == "N7" else "OutPort"}( T )', '']}
+  if which == 'N7':
+    case['attrs'] = ['s.ifc = [ ' + ', '.join(f'{I}( Bits{w} )' for w in ws) + ' ]']
+    E = f's.ifc[ {pick} ].msg'
+  else:
+    case['prelude'] += [f'class {S}( Component ):', '  def construct( s, T ):', f'    s.ifc = {I}( T )', '    @update', '    def up_sub():',
+                        '      s.ifc.msg @= 1', '']
+    case['attrs'] = ['s.sub = [ ' + ', '.join(f'{S}( Bits{w} )' for w in ws) + ' ]']
+    E = f's.sub[ {pick} ].ifc.msg'
+  r = 0.0 if canonical else rng.random()
+  if r < 0.5: case['body'] = [f's.out @= {E}']
+  elif r < 0.8:
+    case['ports'].append(['a', 'in', f'Bits{w0}']); case['body'] = [f's.out @= s.a {rng.choice(["+", "&", "|"])} {E}']
+  else:
+    case['ports'] += [['a', 'in', f'Bits{w0}'], ['o1', 'out', 'Bits1']]; case['body'] = [f's.o1 @= s.a == {E}']
+  return case
+
+def gen_structinst(rng, uid, canonical=False):
+  """N9 (repair pending): an implicit argument of a bitstruct instantiation that needs more bits than its field"""
+  fw = 8 if canonical else rng.choice([1, 2, 4, 8])
+  gw = 4 if canonical else rng.choice([1, 4, 8])
+  v = 300 if canonical else (1 << fw) + rng.randint(0, 300)
+  T = [f'SI{uid}', [['x', f'Bits{fw}'], ['y', f'Bits{gw}']]]
+  case = {'uid': uid, 'stream': 'N9', 'types': [T], 'widths': [], 'ports': [['out', 'out', T[0]], ['a', 'in', f'Bits{gw}']], 'attrs': []}
+  r = 0.0 if canonical else rng.random()
+  if r < 0.6: case['body'] = [f's.out @= {T[0]}( {v}, 1 )']
+  elif r < 0.8: case['body'] = [f's.out @= {T[0]}( {v}, s.a )']
+  else: case['body'] = [f's.out @= {T[0]}( {rng.randint(0, (1 << fw) - 1)}, {(1 << gw) + rng.randint(0, 9)} )']
   return case
 
 def corpus():
